@@ -22,7 +22,7 @@ theorem raiseIfErrors_astate (s : State) (rs : List Reply) :
 /-- repaired code: whatever a wait does (return, raise, even block), `_state` is DEFAULT afterwards -/
 theorem waitCore_fixed_default (s : State) (c : Cmd) (timed : Bool) (hf : s.fixed = true) :
     (waitCore s c timed).1.astate = .default ∧ (waitCore s c timed).1.closed = s.closed := by
-  obtain ⟨f, ast, cl, ws, q⟩ := s
+  obtain ⟨f, f2, ast, cl, ws, q⟩ := s
   dsimp only at hf
   subst hf
   unfold waitCore
@@ -35,22 +35,22 @@ theorem waitCore_fixed_default (s : State) (c : Cmd) (timed : Bool) (hf : s.fixe
     | some o => exact ⟨rfl, rfl⟩
     | none =>
       dsimp only
-      rcases raiseIfErrors_astate { fixed := true, astate := .default, closed := cl, ws := ws1, errq := q ++ e } rs
+      rcases raiseIfErrors_astate { fixed := true, fix2 := f2, astate := .default, closed := cl, ws := ws1, errq := q ++ e } rs
         with ⟨h1, h2⟩ | ⟨h1, h2⟩ | ⟨⟨t, h1⟩, h2, h3, _⟩
-      · rcases hr : raiseIfErrors { fixed := true, astate := .default, closed := cl, ws := ws1, errq := q ++ e } rs
+      · rcases hr : raiseIfErrors { fixed := true, fix2 := f2, astate := .default, closed := cl, ws := ws1, errq := q ++ e } rs
           with ⟨s2, o2⟩
         rw [hr] at h1 h2
         dsimp only at h1 h2
         subst h1 h2
         dsimp only
         split <;> exact ⟨rfl, rfl⟩
-      · rcases hr : raiseIfErrors { fixed := true, astate := .default, closed := cl, ws := ws1, errq := q ++ e } rs
+      · rcases hr : raiseIfErrors { fixed := true, fix2 := f2, astate := .default, closed := cl, ws := ws1, errq := q ++ e } rs
           with ⟨s2, o2⟩
         rw [hr] at h1 h2
         dsimp only at h1 h2
         subst h1 h2
         exact ⟨rfl, rfl⟩
-      · rcases hr : raiseIfErrors { fixed := true, astate := .default, closed := cl, ws := ws1, errq := q ++ e } rs
+      · rcases hr : raiseIfErrors { fixed := true, fix2 := f2, astate := .default, closed := cl, ws := ws1, errq := q ++ e } rs
           with ⟨s2, o2⟩
         rw [hr] at h1 h2 h3
         dsimp only at h1 h2 h3
